@@ -484,6 +484,93 @@ theorem encode_decoded_no_panic_of_dist_nonneg (h : decoded_dist_nonneg_statemen
 
 end Encoder
 
+/-! ### which distances a slider can have (structural), and what is left of the `clamp` hypothesis -/
+
+section Dist
+open Rosu.Curve Rosu.Encode
+
+omit [Trig F] [Trig P] in
+theorem dist_natLens (opt : F) (path : List (Pos P)) :
+    dist (C16.natLens opt path) = (0 : F) ∨ dist (C16.natLens opt path) = C16.natTotal opt path := by
+  by_cases h2 : 2 ≤ path.length
+  · exact Or.inr (C16.natural_dist path opt h2)
+  · left
+    have h1 := (C16.natLens_len_eq_one opt path).mpr (by omega)
+    unfold C16.natLens at h1 ⊢
+    cases hl : (cumLens opt path).1 with
+    | nil => simp [dist]
+    | cons a t => rw [hl] at h1; simp at h1
+
+omit [Trig F] [Trig P] in
+/-- **the distance of a curve is `0.0`, the natural length, or the requested length** (the five outcomes of
+`calculate_length`, C16 `calculateLength_some`). -/
+theorem dist_cases (path : List (Pos P)) (e : Option F) (opt : F) (p' : List (Pos P)) (ls : List F)
+    (h : calculateLength path e opt = .ok (p', ls)) :
+    dist ls = (0 : F) ∨ dist ls = C16.natTotal opt path ∨ e = some (dist ls) := by
+  have hnat := dist_natLens opt path
+  have hn : dist (C16.natLens opt path) = (0 : F) ∨ dist (C16.natLens opt path) = C16.natTotal opt path ∨
+      e = some (dist (C16.natLens opt path)) := by
+    rcases hnat with h0 | h0
+    · exact Or.inl h0
+    · exact Or.inr (Or.inl h0)
+  cases e with
+  | none => cases h; exact hn
+  | some L =>
+    rw [C16.calculateLength_some] at h
+    split at h
+    · cases h; exact hn
+    split at h
+    · cases h; exact Or.inr (Or.inl (C19.dist_concat _ _))
+    split at h
+    · cases h; exact hn
+    split at h
+    · cases h; left; simp [dist]
+    · cases h; right; right; rw [C19.dist_concat]
+
+/-- the natural length of a slider's path: `calculated_len` after `calculate_path` on fresh buffers. -/
+def naturalDist (s : HitObjectSlider F P) : Outcome F := do
+  let (b, opt) ← calculatePath curveFuel s.path.mode s.path.controlPoints (emptyBuffers : CurveBuffers P F)
+  pure (C16.natTotal opt b.path)
+
+/-- a slider's distance is `0.0`, its natural length, or its stored expected distance. -/
+theorem curveDist_cases (s : HitObjectSlider F P) (d : F) (h : curveDist s = .ok d) :
+    d = (0 : F) ∨ naturalDist s = .ok d ∨ s.path.expectedDist = some d := by
+  unfold curveDist at h
+  cases hn : Curve.new curveFuel s.path.mode s.path.controlPoints s.path.expectedDist
+      (emptyBuffers : CurveBuffers P F) with
+  | error e => rw [hn] at h; cases h
+  | ok r =>
+    obtain ⟨c, b'⟩ := r
+    rw [hn] at h
+    simp only [Outcome.ok_bind, Outcome.pure_eq_ok] at h
+    cases h
+    obtain ⟨b1, opt, hp, hl⟩ := C16.new_is_calculateLength _ _ _ _ _ _ _ hn
+    rcases dist_cases _ _ _ _ _ hl with h0 | h0 | h0
+    · exact Or.inl h0
+    · right; left
+      unfold naturalDist
+      rw [hp]
+      simp only [Outcome.ok_bind, Outcome.pure_eq_ok, h0]
+    · exact Or.inr (Or.inr h0)
+
+/-- **the `clamp` hypothesis reduced to three scalar facts**: `0 <= min(100000, 0)` (any sane arithmetic),
+`0 <= min(100000, L)` for the stored expected distances (the decoder stores `max(parsed, 0) ≥ ε` only), and
+`0 <= min(100000, natural)` for the natural lengths — the one genuinely arithmetic obligation
+(non-negativity of `optimized_len + Σ |pᵢ₊₁ − pᵢ|`, or NaN). -/
+theorem distOk_of_three (hs : List (HitObject F P))
+    (hzero : Scalar.le (0 : F) (Scalar.min (100000 : F) (0 : F)) = true)
+    (hexp : ∀ h ∈ hs, ∀ s, h.kind = .slider s → ∀ L, s.path.expectedDist = some L →
+      Scalar.le (0 : F) (Scalar.min (100000 : F) L) = true)
+    (hnat : ∀ h ∈ hs, ∀ s, h.kind = .slider s → ∀ d, naturalDist s = .ok d →
+      Scalar.le (0 : F) (Scalar.min (100000 : F) d) = true) : DistOk hs := by
+  intro h hh s hk d hd
+  rcases curveDist_cases s d hd with h0 | h0 | h0
+  · rw [h0]; exact hzero
+  · exact hnat h hh s hk d h0
+  · exact hexp h hh s hk d h0
+
+end Dist
+
 /-! ### fuel (structural part) and non-vacuity -/
 
 section Examples
